@@ -17,4 +17,18 @@ Flatten(ss) == IF Len(ss) = 0 THEN <<>>
 Lit(bs) == [k |-> "b", v |-> bs]
 Zr(n) == [k |-> "z", n |-> n]
 Blob(id, off, n) == [k |-> "blob", id |-> id, off |-> off, n |-> n]
+\* the byte function blobs stand for: every (id, position) is distinguishable; harness/common/scen.hpp expands blobs with the same function
+BlobByte(id, j) == (id * 131 + j * 31 + (j \div 256) * 7 + 17) % 251
+SegLen(s) == IF s.k = "b" THEN Len(s.v) ELSE s.n
+SegBytes(s) == IF s.k = "b" THEN s.v ELSE IF s.k = "z" THEN Zeros(s.n) ELSE [j \in 1..s.n |-> BlobByte(s.id, s.off + j - 1)]
+RECURSIVE SegsLen(_)
+SegsLen(segs) == IF segs = <<>> THEN 0 ELSE SegLen(Head(segs)) + SegsLen(Tail(segs))
+FlattenSegs(segs) == Flatten([i \in 1..Len(segs) |-> SegBytes(segs[i])])
+\* the first k bytes of an image given as segments (a truncated file)
+RECURSIVE TruncSegs(_, _)
+TruncSegs(segs, k) ==
+  IF k = 0 \/ segs = <<>> THEN <<>>
+  ELSE LET s == Head(segs)  n == SegLen(s) IN
+       IF n <= k THEN <<s>> \o TruncSegs(Tail(segs), k - n)
+       ELSE << IF s.k = "b" THEN Lit(SubSeq(s.v, 1, k)) ELSE IF s.k = "z" THEN Zr(k) ELSE Blob(s.id, s.off, k) >>
 ====
